@@ -66,6 +66,7 @@ def run(ctx):
 
     # abort sites: explicit raises under a falsy test of what was read
     abort_fns = {}
+    none_only = []
     for f in p.all_functions():
         if f.cls is None or qcls not in f.cls.mro:
             continue
@@ -78,9 +79,19 @@ def run(ctx):
                         reads.add(t.id)
         for rz in [n for n in cfg.nodes if n.kind == "raise" and n.ast.exc is not None]:
             g = guarded_by(cfg, rz, lambda e: isinstance(e, ast.Name) and e.id in reads, polarity=False)
+            if g is None:
+                g = guarded_by(cfg, rz, lambda e: isinstance(e, ast.Compare) and isinstance(e.left, ast.Name) and e.left.id in reads and isinstance(e.ops[0], ast.Eq)
+                               and isinstance(e.comparators[0], ast.Constant) and e.comparators[0].value in ("", b""), polarity=True)
             if g is not None:
                 abort_fns[f.qualname] = (f, rz, cfg._raised_class(rz.ast, None))
-    ctx.require(abort_fns, "no end-of-input abort found in the Question classes (raise under 'not <value read>')")
+                continue
+            # an abort that only fires for None: streams signal the end of input with an empty string
+            g2 = guarded_by(cfg, rz, lambda e: isinstance(e, ast.Compare) and isinstance(e.left, ast.Name) and e.left.id in reads and isinstance(e.ops[0], ast.Is)
+                            and isinstance(e.comparators[0], ast.Constant) and e.comparators[0].value is None, polarity=True)
+            if g2 is not None:
+                abort_fns[f.qualname] = (f, rz, cfg._raised_class(rz.ast, None))
+                none_only.append((f, g2, rz))
+    ctx.require(abort_fns, "no end-of-input abort found in the Question classes (raise under a test of the value read)")
 
     # ---------------------------------------------------------------- R1
     r = ctx.rule("C18-R1", "EXC", "end of input leaves every retry loop: no handler that swallows the abort sits in a "
@@ -245,6 +256,89 @@ def run(ctx):
         r.ok("%s: exhausted budget raises the last error" % va.short)
     else:
         r.fail(va, va.node, "no final raise", "an exhausted attempt budget does not raise")
+
+    # ---------------------------------------------------------------- R8
+    r = ctx.rule("C18-R8", "SENTINEL", "the end of the input is recognised: input streams answer read_line at the end with an empty string (never None), "
+                 "so the abort is raised under a falsiness test of what was read, not under `is None`", reference=1)
+    streams = [c for c in p.classes.values() if c.module.name.startswith("clikit.io.input_stream") and "read_line" in c.methods]
+    never_none = streams and all(all(ret.value is not None and not (isinstance(ret.value, ast.Constant) and ret.value.value is None) for ret in q.returns(c.methods["read_line"])) for c in streams)
+    r.note("fact: the %d input stream classes %s return None from read_line" % (len(streams), "never" if never_none else "can"))
+    if none_only and never_none:
+        for f, g2, rz in none_only:
+            r.fail(f, g2.ast, "end-of-input test `%s`" % norm(g2.ast), "%s aborts only when the value read `%s`; at the end of the input the streams return '' - the question silently takes its default, "
+                   "and one without a default and with unlimited attempts asks forever" % (f.short, norm(g2.ast)))
+    for qn, (f, rz, cls) in sorted(abort_fns.items()):
+        if not any(f is x[0] for x in none_only):
+            r.ok("%s: abort under a falsiness test of the value read" % f.short)
+
+    # ---------------------------------------------------------------- R5
+    r = ctx.rule("C18-R5", "EXC", "every rejection by the validator is a failed attempt: the validator is a replaceable callable (and the built-in one "
+                 "also fails with AttributeError on an empty answer without default), so the handler around its call catches Exception", reference=1)
+    vcalls = [c for c in q.calls(va) if isinstance(c.func, ast.Attribute) and is_self_attr(c.func) and "valid" in c.func.attr]
+    ctx.require(vcalls, "_validate_attempts no longer calls the validator")
+    for c in vcalls:
+        wide = False
+        names = []
+        for cn in cfg.nodes_of(c):
+            for s_, k in cfg.succ[cn.id]:
+                sn = cfg.nodes[s_]
+                if k == "e" and sn.kind == "except":
+                    h = sn.ast
+                    nm = [] if h.type is None else [norm(x) for x in (h.type.elts if isinstance(h.type, ast.Tuple) else [h.type])]
+                    names += nm
+                    if h.type is None or any(x in ("Exception", "BaseException") for x in nm):
+                        wide = True
+        if wide:
+            r.ok("%s: %s under except Exception" % (va.short, norm(c)))
+        else:
+            r.fail(va, c, norm(c) + " handler " + ",".join(sorted(set(names)) or ["none"]), "the retry loop catches only %s around the validator: any other rejection (AttributeError for an empty line on a "
+                   "choice question without default, a custom validator's own error class) ends the dialogue at once - no error line, attempts left unused" % (", ".join(sorted(set(names))) or "nothing"))
+
+    # ---------------------------------------------------------------- R6
+    r = ctx.rule("C18-R6", "TAINT", "typing a choice's value selects it, whatever characters it contains: the blank-collapsed form of the answer exists for the "
+                 "syntax check and split of the multi-select form only; on the single-select arm the candidate is the answer as typed", reference=1)
+    prm = [a for a in val.params if a != "self"][0]
+    vcfg = ctx.cfg(val)
+    collapsed = {t.id for n in walk_no_nested(val.node) if isinstance(n, ast.Assign) and isinstance(n.value, ast.Call) and isinstance(n.value.func, ast.Attribute) and n.value.func.attr == "replace"
+                 and n.value.args and isinstance(n.value.args[0], ast.Constant) and n.value.args[0].value == " " for t in n.targets if isinstance(t, ast.Name)}
+    multi_f = [e for e in vcfg.nodes if e.kind == "F" and isinstance(e.ast, ast.Call) and isinstance(e.ast.func, ast.Attribute) and e.ast.func.attr == "supports_multiple_choices"]
+    if not collapsed:
+        r.vacuous_ok = True
+        r.note("the validator no longer collapses blanks")
+    else:
+        bad = None
+        arms = 0
+        for e in multi_f:
+            for n in vcfg.nodes:
+                if n.kind == "stmt" and isinstance(n.ast, ast.Assign) and vcfg.dominates(e.id, n.id) and any(isinstance(t, ast.Name) and t.id in collapsed for t in n.ast.targets):
+                    arms += 1
+                    if q.names_in(n.ast.value) & collapsed:
+                        bad = n
+        if bad is not None:
+            r.fail(val, bad.ast, norm(bad.ast), "on the single-select arm the candidate list is built from the blank-collapsed answer (%s): a choice that contains a blank, such as 'Iron Man', "
+                   "can be selected by its index but is rejected when typed by name" % norm(bad.ast))
+        elif arms:
+            r.ok("%s: single-select candidate is the answer as typed" % val.short)
+        else:
+            r.note("no single-select arm that rebuilds the candidate list found")
+            r.vacuous_ok = True
+
+    # ---------------------------------------------------------------- R7
+    r = ctx.rule("C18-R7", "TABLE", "a confirmation is true exactly for inputs that match its pattern from their first character: the normaliser "
+                 "applies the pattern with re.match / fullmatch, not with a searching function", reference=1)
+    cq = ctx.cls("clikit.ui.components.confirmation_question.ConfirmationQuestion")
+    n7 = 0
+    for name, m in sorted(cq.methods.items()):
+        for fn in [m] + list(getattr(m, "nested", {}).values()):
+            for c in q.calls(fn):
+                if isinstance(c.func, ast.Attribute) and isinstance(c.func.value, ast.Name) and c.func.value.id == "re" and c.args and any(is_self_attr(x) and "regex" in x.attr for x in walk_no_nested(c.args[0])):
+                    n7 += 1
+                    if c.func.attr in ("match", "fullmatch"):
+                        r.ok("%s: re.%s(pattern, answer)" % (fn.short, c.func.attr))
+                    else:
+                        r.fail(fn, c, norm(c), "the confirmation applies its pattern with re.%s: an answer that merely contains a match ('no way' for the pattern 'y|w') confirms" % c.func.attr)
+    if n7 == 0:
+        r.fail(list(cq.methods.values())[0], cq.node, "pattern not applied", "ConfirmationQuestion never applies its true-answer pattern")
     return ctx.results
 
 
